@@ -2,6 +2,7 @@
 package engines
 
 import (
+	_ "verif/sim/engines/dkgsim"
 	_ "verif/sim/engines/dsssim"
 	_ "verif/sim/engines/vsssim"
 )
